@@ -4,6 +4,7 @@ import Poulpy.Lemmas.CnvSum
 import Poulpy.Lemmas.Ntt120Top
 import Poulpy.Lemmas.NttSum
 import Poulpy.Lemmas.Fft64Instance
+import Poulpy.Lemmas.Fft64Vmp
 
 /-!
 # C07 — DFT-domain products equal exact negacyclic (bivariate) convolution
@@ -673,7 +674,8 @@ bit to `poulpy_cpu_ref` by the `fft64` gate.  The theorems below are about exact
 
 PARTIAL with respect to the slice brief: the a-priori domain is a worst-case (sup-norm) bound, `n²·(9/16)·|a|·|b|·(20k+6)·2^-53 < 1/2`,
 i.e. `n·|a|·|b| ≤ 2^35` at `n = 1024` and `2^28` at `n = 65536`, where the measured boundary on the tried worst-case inputs is
-`2^49`; the vmp (sum over rows) and AVX2/FMA variants have no theorem (tied only); monotonicity of `round` is not proved.
+`2^49`; the vmp domain (`VmpDomain`) is explicit but has no closed-form table; the AVX2/FMA variants and the convolution path
+have no theorem (tied only); monotonicity of `round` is not proved.
 -/
 
 namespace C07
@@ -852,14 +854,39 @@ theorem fft64_pipeline_exact_numeric (K : Nat) (hK : K ≤ 15) (omg iomg : Array
 /-- the hypothesis `TableAccurate` is satisfiable, and for the crate's `m = 2` tables it is *proved* (`√2/2` bounds) -/
 theorem fft64_table_accurate_m2 : TableAccurate τ51 1 omg2 iomg2 := tableAccurate_m2
 
-/- FULL STATEMENT (not proved): the same for `Fft64.vmpPipeline` (sum over `rows` products accumulated by
-`reim4_vec_mat*_product_ref`, then one inverse transform):
-   `vmpApply K omg iomg rows = .ok (Hal.sumPolys n (rows.map fun r => Hal.negMul r.1 r.2))` inside the domain with `Ma·Mb`
-   replaced by `rows·Ma·Mb` and one extra rounding `u` per accumulated row.  Missing step: the error lemma of `caddmul`
-   folded over the rows (same shape as `close_mul` + `out_stage`) and additivity of `fwdE`.  The vmp path is tied bit for
-   bit and checked against the exact product by the gate's oracle.
-   Also not proved: monotonicity of `round` (`x ≤ y → round x ≤ round y`); the ℓ2 (Parseval) refinement of the a-priori
-   bound, which would replace one factor `n` by `√n`. -/
+/-- **`fft64_vmp_exact`**: `vmp_prepare(rows b_j)`; `vmp_apply_dft(a)` (one output column: `reim4_vec_mat*_product_ref`
+accumulates `acc += a_j·b_j` row by row from `+0`); `vec_znx_idft_apply` returns EXACTLY the sum of the negacyclic
+products, inside the explicit domain `VmpDomain K rows τ Ma Mb` (accumulator error `accR` = one product error and two
+more roundings per row; `fft64_vmp_acc_growth` bounds it by `R·(1+u)^R·(EP + u·R·AP)`) -/
+theorem fft64_vmp_exact (K : Nat) (hK : 2 ≤ K) (omg iomg : Array Nat) (τ Ma Mb : ℝ) (rows : List (Poly × Poly))
+    (hacc : TableAccurate τ K omg iomg)
+    (hlen : ∀ r ∈ rows, r.1.length = 2 ^ (K + 1) ∧ r.2.length = 2 ^ (K + 1))
+    (hM : ∀ r ∈ rows, (∀ c ∈ r.1, c.natAbs < 2 ^ 53 ∧ |(c:ℝ)| ≤ Ma) ∧ (∀ c ∈ r.2, c.natAbs < 2 ^ 53 ∧ |(c:ℝ)| ≤ Mb))
+    (hdom : VmpDomain K rows.length τ Ma Mb) :
+    vmpApply K omg iomg rows = .ok (Hal.sumPolys (2 ^ (K + 1)) (rows.map (fun r => Hal.negMul r.1 r.2))) := by
+  have h8 : ¬ (2 * 2 ^ K < 8) := by
+    have : 2 ^ 2 ≤ 2 ^ K := Nat.pow_le_pow_right (by norm_num) hK
+    omega
+  unfold vmpApply
+  rw [if_neg h8, vmp_pipeline_exact K omg iomg τ Ma Mb rows hacc hlen hM hdom]
+
+/-- the entry assertion of `vmp_prepare_core` (`n >= 8`) is an outcome of the model, not a default -/
+theorem fft64_vmp_small_n_panics (K : Nat) (hK : K < 2) (omg iomg : Array Nat) (rows : List (Poly × Poly)) :
+    vmpApply K omg iomg rows = .panic "assert" := by
+  have : 2 * 2 ^ K < 8 := by interval_cases K <;> norm_num
+  unfold vmpApply; rw [if_pos this]
+
+theorem fft64_vmp_acc_growth (ep ap : ℝ) (hep : 0 ≤ ep) (hap : 0 ≤ ap) (R r : Nat) (hr : r ≤ R) :
+    (accIter ep ap r (0, 0)).1 ≤ r * (1 + u) ^ r * (ep + u * R * ap) ∧ (accIter ep ap r (0, 0)).2 = r * ap :=
+  accIter_fst_le ep ap hep hap R r hr
+
+/-- the vmp domain is decidable by evaluation and inhabited: `n = 8`, 3 rows, operands below `2^12` -/
+theorem fft64_vmp_domain_example : VmpDomain 2 3 τ51 4096 4096 := vmpDomain_example
+
+/- FULL STATEMENT (not proved): closed form / numeric table of `VmpDomain` for every `rows` and `n ≤ 2^16` in the style of
+   `fft64_domain_numeric` (the predicate itself is explicit and evaluated per instance, e.g. `fft64_vmp_domain_example`);
+   monotonicity of `round` (`x ≤ y → round x ≤ round y`); the ℓ2 (Parseval) refinement of the a-priori bound, which would
+   replace one factor `n` by `√n`; the convolution (`cnv_*`) path; the AVX2/FMA kernels of FFT64Avx. -/
 
 /-! non-vacuity: `n = 4` with the crate's real tables — no hypothesis left unchecked; and the model evaluated by the kernel -/
 example : svpPipeline 1 omg2 iomg2 [1000000, -2000000, 3000000, 4194303] [4194303, -1, 7, -4000000] =
@@ -868,6 +895,18 @@ example : svpPipeline 1 omg2 iomg2 [1000000, -2000000, 3000000, 4194303] [419430
     (by decide) (by decide) (by decide)
 example : svpPipeline 1 omg2 iomg2 [1000000, -2000000, 3000000, 4194303] [4194303, -1, 7, -4000000] =
     [-3805713805697, 3611363639879, 29360130000000, 13592160655809] := by decide +kernel
+/-- the vmp model on the crate's real `m = 4` tables (dumped by `pvh fft64 tab k=2`), 3 rows, evaluated by the kernel:
+equal to the exact sum of products, as `fft64_vmp_exact` predicts inside `fft64_vmp_domain_example` -/
+example :
+    vmpPipeline 2 #[4604544271217802189, 4604544271217802188, 4606496786581982534, 4600565431771507043, 0, 0, 0, 0]
+      #[4606496786581982534, 13823937468626282851, 4604544271217802189, 13827916308072577996, 0, 0, 0, 0]
+      [([4095, -4095, 1, 0, 7, -9, 1000, 4095], [1, 2, 3, 4, 5, 6, 7, -4095]),
+       ([-5, 4095, 0, 0, 0, 0, 0, 1], [4095, 4095, 4095, 4095, 4095, 4095, 4095, 4095]),
+       ([1, 1, 1, 1, 1, 1, 1, 1], [-4095, 4095, -4095, 4095, -4095, 4095, -4095, 4095])] =
+    Hal.sumPolys 8 [Hal.negMul [4095, -4095, 1, 0, 7, -9, 1000, 4095] [1, 2, 3, 4, 5, 6, 7, -4095],
+      Hal.negMul [-5, 4095, 0, 0, 0, 0, 0, 1] [4095, 4095, 4095, 4095, 4095, 4095, 4095, 4095],
+      Hal.negMul [1, 1, 1, 1, 1, 1, 1, 1] [-4095, 4095, -4095, 4095, -4095, 4095, -4095, 4095]] := by decide +kernel
+example : vmpApply 1 #[] #[] [([1, 2, 3, 4], [1, 2, 3, 4])] = .panic "assert" := fft64_vmp_small_n_panics 1 (by norm_num) _ _ _
 example : SvpDomain 9 τ51 (2 ^ 12) (2 ^ 13) := fft64_domain_numeric 9 (by norm_num) _ _ (by norm_num) (by norm_num) (by unfold domBits; norm_num)
 /-- the exact network on a concrete vector: `m = 1` is the identity, and `invE ∘ fwdE = 2^k` is not vacuous -/
 example : invE 1 (1 / 4) (fwdE 1 (1 / 4) [1, I]) = [2, 2 * I] := by
